@@ -20,7 +20,8 @@ BUILTIN_ANNOTATIONS = ["gdc-1.0.0", "gdc-1.0.0-protected", "gdc-1.0.0-public", "
 
 def reg_op(rng, defs):
     """A registration; the file names reach all_schemes as a list, a tuple or a one-shot iterable (a generator, map(...))."""
-    return {"k": "register", "defs": defs, "paths_as": rng.choice(["list", "list", "tuple", "generator", "map"])}
+    return {"k": "register", "defs": defs, "paths_as": rng.choice(["list", "list", "tuple", "generator", "map"]),
+            "spell": rng.choice(["abs", "abs", "rel", "dot", "path"]), "again": rng.random() < 0.3}
 
 
 def run_history(req):
@@ -518,7 +519,7 @@ def run(ctx):
 
 def _step_text(o, s):
     if o["k"] == "register":
-        return "register (file names given as a %s) %s -> %s" % (o.get("paths_as", "list"), [(d["version"], d["annotation"], "extends %s" % d.get("extends")) for d in o["defs"]], "ok" if s.get("exc") is None and "exc" in s else s)
+        return "register (file names given as a %s, spelt %s%s) %s -> %s" % (o.get("paths_as", "list"), o.get("spell", "abs"), ", after the names given before" if o.get("again") else "", [(d["version"], d["annotation"], "extends %s" % d.get("extends")) for d in o["defs"]], "ok" if s.get("exc") is None and "exc" in s else s)
     if o["k"] == "find":
         return "find_scheme(%s, %s) -> %s" % (o.get("version"), o.get("annotation"),
                                               "(%s, %s, %d columns)" % (s.get("version"), s["annotation"], len(s.get("names", []))) if s.get("annotation") else s)
